@@ -1044,6 +1044,8 @@ func (in *Interp) instrs(st *State, b, pred *ssa.BasicBlock, idx int, k kont) {
 				}
 			case Sym:
 				in.set(st, ins, in.refined(st, Sym{Name: sv.Name + "." + name, T: ins.Type()}))
+			case Zero: // a field of the zero struct value
+				in.set(st, ins, Zero{ins.Type()})
 			default:
 				in.set(st, ins, Expr{Op: "field." + name, Args: []AV{x}})
 			}
